@@ -91,7 +91,7 @@ open Hive.Proto
 /-! ### the serializers an instance of the harness is constructed with
 
 One letter each for the identifier, the key and the value serializer: `i` the bytes themselves, `p` one
-leading tag byte, `r` the bytes in reverse order, `l` one leading length byte.  All of them round-trip.  The
+leading tag byte, `r` the bytes in reverse order, `l` two leading length bytes.  All of them round-trip.  The
 sequential model works on the *stored* (encoded) keys and values — `Op.set (k : Option Key)` is the result of
 `keyToBytes` — so the serializers live in the line protocol: requests are encoded, answers decoded; `peek`
 shows the raw keys as stored (their order is the byte order of the stored form).  The identifier serializer
@@ -108,11 +108,11 @@ def tagVal : UInt8 := 0x56
 def encWith (c : Char) (tag : UInt8) (b : List UInt8) : List UInt8 :=
   if c == 'p' then tag :: b
   else if c == 'r' then b.reverse
-  else if c == 'l' then UInt8.ofNat b.length :: b
+  else if c == 'l' then UInt8.ofNat (b.length / 256) :: UInt8.ofNat (b.length % 256) :: b
   else b
 
 def decWith (c : Char) (b : List UInt8) : List UInt8 :=
-  if c == 'p' || c == 'l' then b.drop 1 else if c == 'r' then b.reverse else b
+  if c == 'p' then b.drop 1 else if c == 'l' then b.drop 2 else if c == 'r' then b.reverse else b
 
 /-- `map`, `mapa`, `set`, optionally followed by `:<id><key><val>` (the set flavour's values are `types.Empty`). -/
 def parseFlavour (tok : String) : Option Codec :=
